@@ -173,6 +173,14 @@ ApiModel buildApiModel(uint64_t seed, int variant, const ApiOpts* optsIn) {
 		if (colors) {
 			std::vector<Color4> cols((size_t)nv);
 			for (auto& c : cols) c = Color4(rng.unit(), rng.unit(), rng.unit(), rng.unit());
+			if (o.wideColors) {
+				static const float W[] = {-0.5f, -0.25f, -1.0f / 128.0f, 0.0f, 1.0f, 1.25f, 2.0f};
+				for (auto& c : cols) {
+					if (rng.coin(3)) c.r = W[rng.below(7)];
+					if (rng.coin(4)) c.g = W[rng.below(7)];
+					if (rng.coin(5)) c.a = W[rng.below(7)];
+				}
+			}
 			nif.SetColorsForShape(shape, cols);
 		}
 		bool skinned = o.skinned >= 0 ? o.skinned == 1 : !rng.coin(3);
